@@ -233,7 +233,11 @@ def gen_C02(chk):
             if psi[0] == "T":
                 psi = ("U", "AX", psi)
             vx = gen.T("V", "x")
-            inner = ("H", rng.choice(gen.QUANTS), "x", "d", rng.choice([("B", "And", vx, psi), ("H", "Jump", "x", None, psi), psi]))
+            small = gen.random_formula(rng, rng.randint(0, 2), props, scope=["x"], max_vars=1, unops=["Not", "AX", "EX"], binops=["And", "Or"])
+            inner = ("H", rng.choice(gen.QUANTS), "x", "d", rng.choice([
+                ("B", "And", vx, psi), ("H", "Jump", "x", None, psi), psi,
+                ("B", rng.choice(["And", "Or"]), ("H", "Jump", "x", None, small), psi),
+                ("B", "And", ("H", "Jump", "x", None, small), ("B", "Or", psi, vx))]))
             outer = rng.choice([psi, ("H", rng.choice(gen.QUANTS), "x", None, ("B", "And", vx, psi)), ("U", "Not", psi)])
             ctx = [(l, ctx_spec(rng)) for l in labels]
             chk.add_eval(net, 1, "es", [("B", rng.choice(["Or", "And"]), inner, outer)], ctx=ctx, tag="closed-in-out", netname=nm)
@@ -337,6 +341,12 @@ def gen_C03(chk):
             spec = rng.choice([ctx_spec(rng), "f" + gen.hx(a), "f" + gen.hx("~" + a)])
             chk.add_eval(net, 2, "e", [f], ctx=[("d", spec)], tag="foreign-scope", netname=nm)
             chk.add_eval(net, 2, "e", [f, g], ctx=[("d", spec)], tag="foreign-scope-batch", netname=nm)
+            if j % 2 == 0:
+                pat = rng.choice([at_, st_])
+                inner2 = ("H", rng.choice(gen.QUANTS), "y", "d", ("H", "Jump", "y", None, ("U", "EF", ("B", "And", pat, pz))))
+                for spec2 in (spec, "k%d.1.2" % rng.randint(1, 10 ** 6)):
+                    chk.add_eval(net, 2, "e", [inner2, pat], ctx=[("d", spec2)], tag="pattern-foreign-batch", netname=nm)
+                    chk.add_eval(net, 2, "e", [("B", "And", inner2, pat)], ctx=[("d", spec2)], tag="pattern-foreign", netname=nm)
         for j in range(cnt(chk, 12, 40)):
             ext = rng.random() < 0.4
             f = gen.random_formula(rng, rng.randint(2, 8), props, max_vars=2,
@@ -423,6 +433,11 @@ def nested_batch(rng, props, ext):
         core = gen.random_formula(rng, rng.randint(1, 3), props, max_vars=1)
         core_var = None
         tries = 0
+        if rng.random() < 0.45:
+            # the shortcut patterns are closed duplicates like any other
+            core = rng.choice([("H", "Bind", "q", None, ("U", "AG", ("U", "EF", gen.T("V", "q")))),
+                               ("U", "EF", ("H", "Bind", "q", None, ("U", "AX", gen.T("V", "q"))))])
+            tries = 30
         while core[0] == "T" or (tries < 30 and not any(x[0] == "T" and x[1] == "P" for x in gen.subtrees(core))):
             core = gen.random_formula(rng, rng.randint(1, 3), props, max_vars=1)
             tries += 1
@@ -711,6 +726,29 @@ def gen_C10(chk):
                     c1 = chk.add_eval(net, kk, "eS", [g1], ctx=ctx0 + [("w0", "f" + gen.hx(gen.render(s0)))],
                                       tag="narrowed-subst", netname=nm)
                     chk.cases[c1]["pair"] = b0
+            # the replaced closed sub-formula has a quantifier with a domain; an earlier nest uses the same
+            # (label, variable) below a restricted outer variable (nothing computed there may be reused)
+            if j % 3 == 2 and len(props) <= 3:
+                V = lambda v: gen.T("V", v)
+                pr = gen.T("P", rng.choice(props))
+                body = lambda: ("H", "Jump", "x", None, rng.choice([("U", "EX", V("y")), ("B", "And", ("U", "Not", pr), ("U", "EX", V("y"))),
+                                                                   ("U", "EF", V("y"))]))
+                q1, q2 = rng.choice(gen.QUANTS), rng.choice(gen.QUANTS)
+                s0 = ("H", q1, "x", None, ("H", q2, "y", "e2", body()))
+                first = ("H", rng.choice(gen.QUANTS), "x", "d", ("H", q2, "y", "e2", body()))
+                for wrap in (lambda z: z, lambda z: ("U", "AX", z)):
+                    g0 = ("B", rng.choice(["And", "Or"]), first, wrap(s0))
+                    g1 = ("B", g0[1], first, wrap(gen.T("W", "w0")))
+                    a = rng.choice(props)
+                    ctx0 = [("d", "f" + gen.hx(rng.choice([a, "~" + a]))), ("e2", ctx_spec(rng))]
+                    b0 = chk.add_eval(net, 2, "es", [g0], ctx=ctx0, tag="dom4-base", netname=nm)
+                    # the raw result of s0 needs the context too: it is computed by the implementation alone
+                    c0 = chk.add_eval(net, 2, "es", [first, s0], ctx=ctx0, tag="dom4-batch", netname=nm)
+                    c1 = chk.add_eval(net, 2, "es", [s0], ctx=ctx0, tag="dom4-alone", netname=nm)
+                    chk.cases[c0]["group"] = [c0, c1]
+                    chk.cases[c1]["group"] = [c0, c1]
+                    chk.cases[c0]["perm"] = (9, 0)
+                    chk.cases[c1]["perm"] = (0,)
             if not closed:
                 continue
             rng.shuffle(closed)
@@ -969,6 +1007,21 @@ def gen_C11_wide(chk):
                            ",".join(gen.hx(f) for f in fs)], tag="wide-ex", meta={"net": "inputs38"})
 
 
+def gen_C11_many(chk):
+    """a network of 144 variables: two cascades of two and 140 components that keep their value"""
+    from .shellprops import add_shell
+    keep = ["m%03d" % i for i in range(140)]
+    net = "$z: true\nz -> a\n$a: z\n$b: true\nb -> y\n$y: b\n" + "".join("%s -> %s\n$%s: %s\n" % (v, v, v, v) for v in keep)
+    S = "a & z & b & y"
+    pairs = [("EF %S%", "true"), ("EF %S%", "%S% | EX EF %S%"), ("%P% EU %S%", "%S% | (%P% & EX (%P% EU %S%))"),
+             ("AG ~%S%", "false"), ("AG ~%S%", "~%S% & AX AG ~%S%"), ("(~%S%) AW false", "AG ~%S%")]
+    fs = []
+    for x, y in pairs:
+        fs += [x, y]
+    add_shell(chk, "EQV", ["0", "A:" + gen.hx(net), "%s=f%s,%s=f%s" % (gen.hx("S"), gen.hx(S), gen.hx("P"), gen.hx("~m000")),
+                           ",".join(gen.hx(f) for f in fs)], tag="wide-many-variables", meta={"net": "keep144"})
+
+
 def gen_C02_wide(chk):
     """README equivalences with a domain that excludes a single state of a 2^58-state network"""
     from .shellprops import add_shell
@@ -1052,6 +1105,48 @@ def gen_C15_names(chk):
             chk.add_eval(net, k, "s", [f], tag="extra-names", netname="g_extra")
 
 
+def gen_C15_narrowed(chk):
+    """graphs narrowed to the states reachable from one state (restrict): the sanitised result must be
+    the raw one, for every number of spare sets (no model for such units: implementation against itself)"""
+    rng = chk.rng
+    ws = worlds(chk, quick_names=gen.SMALL + ["N05", "N06"], n_random=cnt(chk, 2, 6), max_n=3)
+    for nm, net in ws:
+        props = net_props(net)
+        for j in range(cnt(chk, 4, 12)):
+            f = gen.random_formula(rng, rng.randint(1, 5), props, max_vars=(0 if j % 2 == 0 else 1),
+                                   unops=["Not", "EX", "AX", "EF", "AF", "EG", "AG"])
+            d = gen.quant_depth(f)
+            for k in (d, d + 1, d + 2):
+                if len(props) * (1 + k) > 10:
+                    continue
+                a = chk.add_eval(net, k, "sS", [f], tag="narrowed-sanitised", netname=nm)
+                b = chk.add_eval(net, k, "S", [f], tag="narrowed-raw", netname=nm)
+                chk.cases[a]["raw_twin"] = b
+
+
+def judge_raw_twins(chk):
+    from .core import expand_bits
+    first = {}
+    for cid, case in list(chk.cases.items()):
+        b = case.get("raw_twin")
+        if not b:
+            continue
+        ra = chk.results.get(cid, {}).get("impl")
+        rb = chk.results.get(b, {}).get("impl")
+        if not ra or not rb or ra.get("status") != "OK" or rb.get("status") != "OK":
+            if ra and rb and ra.get("status") != rb.get("status") and "SKIP" not in (ra.get("status"), rb.get("status")):
+                chk.record(cid, ("violation", "sanitising entry point answers %s, raw entry point %s" % (ra.get("status"), rb.get("status"))))
+            continue
+        p_, n_ = ra["pn"]
+        want = ",".join(expand_bits(x, p_, n_, case["k"]) for x in ra["payload"].split(","))
+        if want != rb["payload"]:
+            chk.record(cid, ("violation", "sanitised result differs from the raw result on a graph narrowed with restrict (k=%d)" % case["k"]))
+        key = (case["net"], repr(case["formulas"]))
+        if key in first and first[key][1] != ra["payload"]:
+            chk.record(cid, ("violation", "sanitised result depends on the number of spare sets (k=%d vs k=%d)" % (first[key][0], case["k"])))
+        first.setdefault(key, (case["k"], ra["payload"]))
+
+
 def gen_C15_batches(chk):
     """batches through the sanitising entry points: position i of the sanitised answer is formula i"""
     rng = chk.rng
@@ -1110,6 +1205,17 @@ def gen_C18(chk):
         # the attractor pattern is in the fragment (no EX-based operator in it)
         att = ("H", "Bind", "x", None, ("U", "AG", ("U", "EF", gen.T("V", "x"))))
         pr = gen.T("P", rng.choice(props))
+        Vx = gen.T("V", "x")
+        agef = ("U", "AG", ("U", "EF", Vx))
+        cyc1 = ("H", "Bind", "x", None, ("B", "And", agef, ("U", "EF", ("U", "Not", Vx))))
+        cyc2 = ("H", "Bind", "x", None, ("B", "And", ("U", "EF", ("U", "Not", Vx)), agef))
+        sink = ("H", "Bind", "x", None, ("U", "AG", Vx))
+        reach = ("H", "Bind", "x", None, ("U", "EF", ("B", "And", ("U", "Not", Vx), ("U", "EF", Vx))))
+        for f in [cyc1, cyc2, sink, reach, ("U", "EF", cyc1), ("B", "And", att, ("U", "Not", cyc2))]:
+            k = gen.quant_depth(f)
+            a = chk.add_eval(net, k, "u", [f], tag="unsafe-natural", netname=nm)
+            b = chk.add_eval(net, k, "", [f], tag="standard", netname=nm)
+            chk.cases[a]["pair"] = b
         for f in [att, ("U", "EF", att), ("U", "Not", att), ("B", "EU", pr, att), ("B", "AW", att, pr),
                   ("H", "Exists", "y", None, ("H", "Jump", "y", None, ("B", "And", att, pr))),
                   ("B", "And", att, ("U", "AG", ("U", "Not", att)))]:
